@@ -229,11 +229,13 @@ pub fn lw_pool(quick: bool) -> Vec<LwSpec> {
     // resend time of the first (a spurious retransmission, both copies acknowledged)
     {
         let ops: Vec<Op> = (0..40usize).map(|i| send(i / 10, 0, (i % 3) as u8, if i % 4 == 3 { Persistent } else { Reliable }, 1300 + (i % 5) * 30)).collect();
-        let s = Arc::new(ScriptInfo::new(ops));
-        let mut env = env_live(0, 4);
+        // (warm: the sender has a round-trip estimate and a rate that lets the whole allocation go out within a few rounds)
+        let ops: Vec<Op> = ops.into_iter().map(|o| Op { round: o.round + 2, ..o }).collect();
+        let s = Arc::new(ScriptInfo::new(warm(&ops, 30)));
+        let mut env = env_live(30, 4);
         env.fates = &[Fate::Deliver, Fate::Drop]; env.deltas = &[20];
-        for until in [60usize, 200] {
-            let cfg = LwCfg { rx_alloc: [1_000_000, 8 * FRAG], kill: Some((0, None, until)), ..wide.clone() };
+        for until in [30 + 60usize, 30 + 400] {
+            let cfg = LwCfg { rx_alloc: [1_000_000, 8 * FRAG], kill: Some((1, None, until)), ..wide.clone() };
             v.push(sp(&format!("targeted-loss.head-of-transfer.{}", until), &cfg, &s, env.clone(), if quick { 0 } else { 1 }));
         }
         for (name, size, frag_no) in [("second-of-two", 2 * FRAG, 1u16), ("last-of-three", 2 * FRAG + 100, 2), ("first-of-two", 2 * FRAG - 7, 0)] {
